@@ -5,6 +5,8 @@
 S=$(mktemp -d /tmp/w2c2-refactor.XXXXXX); trap 'rm -rf "$S"' EXIT
 if [ -n "$SNAP_DIR" ]; then SNAP="$SNAP_DIR"; else SNAP="$S/verif"; mkdir -p "$SNAP"; cp -r /verif/sa /verif/check /verif/known_findings.json /verif/properties.jsonl "$SNAP/"; ln -s /verif/.cache "$SNAP/.cache"; fi
 mkdir -p "$S/repo"; (cd /repo && cp -r w2c2 wasi futex "$S/repo/")
+# AST dumps of patched sources go to a throw-away cache that starts as a hard-link copy of the main one
+cp -al /verif/.cache "$S/cache" 2>/dev/null || mkdir -p "$S/cache"; export VERIF_CACHE_DIR="$S/cache"
 patch -s -p1 -d "$S/repo" < "$1" || { echo "patch does not apply"; exit 3; }
 bad=0
 for pid in C01 C02 C03 C04 C05 C06 C07 C08 C09 C10 C11 C12 C13 C14 C15 C16 C17 C18 C19 C20; do
